@@ -150,6 +150,25 @@ fn sanitize(s: &str) -> String {
         .collect()
 }
 
+/// A crash is replayed in a subprocess (this process would die with it): the recorded
+/// item is run alone; if the subprocess dies again the violation stands.
+fn replay_crash(check: &dyn Check, replay: &Value, acc: &mut Acc) {
+    let item = replay["item"].as_u64().unwrap_or(0);
+    let tier = if replay["tier"].as_str() == Some("quick") { Tier::Quick } else { Tier::Thorough };
+    let exe = std::env::current_exe().unwrap();
+    match std::process::Command::new(exe).args([check.id(), "--tier", tier.name(), "--run-item", &item.to_string()]).output() {
+        Ok(o) if o.status.success() => {
+            acc.notes.insert(format!("item {} runs to completion now", item));
+        }
+        Ok(o) => acc.violation(
+            &format!("process-abort:{}", replay["class"].as_str().unwrap_or("item")),
+            format!("the process died ({:?}): {}", o.status, String::from_utf8_lossy(&o.stderr).lines().last().unwrap_or("")),
+            replay.clone(),
+        ),
+        Err(e) => acc.machinery_errors.push(e.to_string()),
+    }
+}
+
 pub fn replay_file(check: &dyn Check, path: &str) -> i32 {
     let txt = match std::fs::read_to_string(path) {
         Ok(t) => t,
@@ -167,10 +186,17 @@ pub fn replay_file(check: &dyn Check, path: &str) -> i32 {
     };
     let rep = if v.get("replay").is_some() { v["replay"].clone() } else { v.clone() };
     // run twice: identical verdicts are required before a failure is believed
+    let run = |acc: &mut Acc| {
+        if rep["kind"].as_str() == Some("crash") {
+            replay_crash(check, &rep, acc)
+        } else {
+            check.replay(&rep, acc)
+        }
+    };
     let mut a1 = Acc::default();
-    check.replay(&rep, &mut a1);
+    run(&mut a1);
     let mut a2 = Acc::default();
-    check.replay(&rep, &mut a2);
+    run(&mut a2);
     let k1: Vec<&String> = a1.violations.iter().map(|v| &v.key).collect();
     let k2: Vec<&String> = a2.violations.iter().map(|v| &v.key).collect();
     if k1 != k2 {
